@@ -51,8 +51,8 @@ static void map_ports(Node &n, std::map<const rtosc::Port *, int> &m, std::map<i
 
 static std::string tree_shape(Node &n, int depth = 1) { int d = depth; for(auto &p : n.ports) if(p.child) { std::string s = tree_shape(*p.child, depth + 1); d = std::max(d, atoi(s.c_str() + 5)); } return "depth" + std::to_string(d); }
 
-static char g_msg[256];
-static char g_loc[512];
+static char g_msg[2048];
+static char g_loc[2048];
 
 static void run_tree(std::shared_ptr<Node> root, const std::string &tid)
 {
@@ -195,6 +195,48 @@ static void runtime_part()
     vp::bound("runtime_part", "application with rRecur, rRecurs, rRecurp, rRecursp, rRecur/rRecurp+rEnabledBy, rSelf+rEnabledBy, rEnabledCondition: all 256 states of its 8 switches");
 }
 
+// ---- long addresses with a runtime object: the chain's name has every length 1..253 (the walker requires a sub-tree to start
+// within the first 255 characters), below it an array of 16 pointers in 5 null patterns and an array of 12 objects
+static void runtime_long(uint64_t &top)
+{
+    using namespace walkapp;
+    static const unsigned PAT[5] = {0x0003, 0xfc00, 0x5555, 0xffff, 0x0000};
+    for(int pad = 1; pad <= 253; ++pad) for(int pi = 0; pi < 5; ++pi, ++top) {
+        if(!vp::mine(top)) continue;
+        std::string tid = "runtime-long|pad" + std::to_string(pad) + "|pat" + std::to_string(pi);
+        if(!vp::want(tid)) continue;
+        vp::current_case() = tid;
+        std::string chain(pad, 'q'); for(int k = 0; k < pad; k += 5) chain[k] = (char)('a' + (k / 5) % 26);
+        std::string pname = chain + "/";
+        std::unique_ptr<rtosc::Ports> ports(make_long_ports(pname.c_str()));
+        LongRoot r; for(int i = 0; i < 16; ++i) r.rack.cells[i] = ((PAT[pi] >> i) & 1) ? &r.rack.pool[i] : nullptr;
+        std::multiset<std::string> want;
+        for(int i = 0; i < 16; ++i) if((PAT[pi] >> i) & 1) want.insert("/" + chain + "/cells" + std::to_string(i) + "/x");
+        for(int j = 0; j < 12; ++j) { want.insert("/" + chain + "/v" + std::to_string(j) + "/x"); want.insert("/" + chain + "/v" + std::to_string(j) + "/t"); }
+        char buf[1024]; memset(buf, 0, sizeof buf);
+        g_walked.clear();
+        rtosc::walk_ports(ports.get(), buf, sizeof buf, nullptr, on_port, true, &r, false);
+        vp::state(); vp::eval(); vp::transition(); vp::nontrivial(vp::fnv(tid));
+        std::multiset<std::string> got; for(auto &w : g_walked) got.insert(w.addr);
+        const std::string cls = pad + 8 > 200 ? "long-address" : "short-address";
+        if(std::string(buf) != "/") vp::violation("name-buffer-not-restored|walk_ports|runtime," + cls, tid, "buffer holds '" + std::string(buf) + "'");
+        for(auto &w : want) if(got.count(w) != 1) { vp::violation(std::string(got.count(w) ? "address-reported-too-often" : "enabled-subtree-or-leaf-not-visited") + "|walk_ports-runtime|" + (w.find("/cells") != std::string::npos ? "rRecursp," : "rRecurs,") + cls, tid, "'" + w + "' reported " + std::to_string(got.count(w)) + " times"); break; }
+        for(auto &g : got) if(!want.count(g)) { vp::violation("disabled-or-null-subtree-visited|walk_ports-runtime|" + std::string(g.find("/cells") != std::string::npos ? "rRecursp," : "rRecurs,") + cls, tid, "'" + g + "' reported although its pointer is null (or it does not exist)"); break; }
+        vp::outcome("runtime-long:" + cls + ":" + std::to_string(got.size() > 30 ? 31 : got.size()));
+        for(auto &w : g_walked) {
+            if(w.addr.size() + 8 > sizeof g_msg) continue;
+            memset(g_msg, 0, sizeof g_msg); memcpy(g_msg, w.addr.data(), w.addr.size());
+            size_t off = w.addr.size() + (4 - w.addr.size() % 4); g_msg[off] = ',';
+            Cap d; d.obj = &r; memset(g_loc, 0, sizeof g_loc); d.loc = g_loc; d.loc_size = sizeof g_loc;
+            ports->dispatch(g_msg, d, true);
+            vp::transition();
+            if(d.replies.size() != 1 || d.replies[0] != w.addr) { vp::violation("reported-address-not-dispatched-to-its-port|dispatch-runtime|" + cls, tid, "query to '" + w.addr + "' produced " + std::to_string(d.replies.size()) + " replies" + (d.replies.empty() ? "" : ", first at '" + d.replies[0] + "'")); break; }
+        }
+        vp::trace();
+    }
+    vp::bound("runtime_long_addresses", "chain name of every length 1..253 above cells#16/ (pointers, 5 null patterns) and v#12/ (objects)");
+}
+
 int main(int argc, char **argv)
 {
     vp::init(argc, argv, "C09");
@@ -236,6 +278,22 @@ int main(int argc, char **argv)
         if(!vp::mine(top)) continue;
         auto l4 = clone(reps[r]); auto l3 = level({S[s3], "x"}, {l4}); auto l2 = level({S[s2]}, {l3});
         run_tree(level({S[s1], "z::i"}, {l2}), "d4|" + std::to_string(s1) + "." + std::to_string(s2) + "." + std::to_string(s3) + "|r" + std::to_string(r));
+    }
+    runtime_long(top);
+    // large bundles and long names without a runtime: leaf and sub-tree bundles of every size 1..130; a chain name of every length 1..900
+    {
+        for(int n = 1; n <= 130; ++n) for(int sh = 0; sh < 4; ++sh, ++top) {
+            if(!vp::mine(top)) continue;
+            std::string N = std::to_string(n);
+            std::shared_ptr<Node> t = sh == 0 ? level({"q#" + N}, {}) : sh == 1 ? level({"x", "m#" + N + "/b::i"}, {}) : sh == 2 ? level({"t#" + N + "/"}, {level({"x"}, {})}) : level({"s/"}, {level({"w#" + N + "::i", "x"}, {})});
+            run_tree(t, "big|n" + N + "|sh" + std::to_string(sh));
+        }
+        for(int pad = 1; pad <= 900; ++pad, ++top) {
+            if(!vp::mine(top)) continue;
+            std::string chain(pad, 'k'); for(int k = 0; k < pad; k += 5) chain[k] = (char)('a' + (k / 5) % 26);
+            run_tree(level({chain + "/"}, {level({"x", "v#2", "t#2/"}, {level({"y:i"}, {})})}), "longname|pad" + std::to_string(pad));
+        }
+        vp::bound("large_static_trees", "leaf bundles q#N, m#N/b::i and sub-tree bundles t#N/, s/w#N::i for every N=1..130; a sub-tree name of every length 1..900 above {x, v#2, t#2/y:i}");
     }
     vp::bound("static_trees", "depth 1: all ordered lists of 1..3 distinct leaf shapes {x y:i z::i v#2 w#3::i a#2/b d#2/e#2 g#2/h:i}; depth 2: all ordered lists of 1..2 shapes (leaf or sub-tree {s/ t#2/ u#3/k#2/c/}) with a sub-tree x 6 representative children; depth 3" + std::string(T ? " and 4" : "") + ": chains of sub-trees with sibling leaves");
     vp::bound("walk_variants", "empty name buffer and name buffer holding '/pre/fix/'; expand_bundles=true, no runtime");
